@@ -22,6 +22,15 @@ CHECKS = {
  'C05': ('fault_enumeration', 'fault injection by ptrace supervisor (short counts, unsupported-facility errnos) over proptest-generated files; byte round-trip oracle',
          'Each generated file case is run under a generated fault plan that shortens or fails copy/read/write/clone/extent calls exactly as a kernel legally may; exit 0 must still mean byte-exact.',
          'x86-64 ptrace; injected results are indistinguishable from kernel results; FICLONE success is not available on this filesystem (see C15)', '6/C05'),
+ 'C06': ('exploration', 'schedule exploration: ptrace priority scheduler (PCT at system-call granularity) over proptest-generated trees; differential oracle across schedules, worker counts and drivers plus trace invariants',
+         'Each generated tree is copied 6 (thorough 24) times under generated (driver, workers, schedule kind, seed, priority change points); exit classes must agree, exit-0 destinations must be identical and equal to the reference model, directories must exist before children are created and metadata calls must follow the last data write.',
+         'interleavings finer than system calls are not controlled; a schedule seed reproduces a run only approximately (replay retries 3 times)', '6/C06'),
+ 'C10': ('exploration', 'property-based testing of the real binary over generated metadata; equality / bracket oracles on lstat and xattrs',
+         'Generated modes (all of 0..07777), mtimes, xattrs, owners, flag subsets, umasks and pre-existing destinations; after exit 0 the destination must carry exactly the requested attributes; a tenth of the runs are scheduled with one starved worker.',
+         'privileged (root) branch only; ext4 nanosecond timestamps; marker files instead of the wall clock for --no-timestamps', '6/C10'),
+ 'C16': ('exploration', 'property-based testing of generated invalid invocations; exit-status and whole-sandbox snapshot-equality oracle',
+         '16 rejection classes x position x destination state x driver x flag noise: each must exit non-zero and leave the sandbox byte-and-metadata identical.',
+         'clap-level rejections and main.rs validations are both covered; --glob with an unmatched literal is excluded (documented open question in the code)', '6/C16'),
 }
 
 NA_REASON = 'check not built yet (work in progress in this session)'
